@@ -161,6 +161,11 @@ f34_S: {x_S: #D34_S & #EX34_S, y_S: #D34_S & #EY34_S, z_S: {
 	// second
 	b_S: int @u(6) @p(1)
 } @decl(z)}`,
+	// let clauses referred to from a nested struct: one whose value is an error, one that computes
+	/*35*/ `f35_S: {let Y_S = {c_S: 1 & 2}, a_S: {b_S: Y_S.c_S}, g_S: {let Z_S = {k_S: 3, m_S: k_S + 1}, h_S: {i_S: Z_S.m_S}}}`,
+	// wide disjunctions: a tagged union of six structs, an enumeration of six values
+	/*36*/ `#U36_S: {kind_S: "a", a_S: int} | {kind_S: "b", b_S: string} | {kind_S: "c", c_S: bool} | {kind_S: "d", d_S: [...int]} | {kind_S: "e", e_S: null} | {kind_S: "f", f_S: float}
+f36_S: {svc_S: #U36_S, svc_S: {kind_S: string}, e6_S: 1 | 2 | 3 | 4 | 5 | 6, t_S: #U36_S & {kind_S: "c"}}`,
 }
 
 // program imports only the builtin packages its fragments use, so that the
@@ -192,28 +197,32 @@ var snippetPaths = [][]string{
 	{"", "a_S", "c_S", "d_S", "e_S", "v_S", "w_S.x_S"}, {"", "bad_S", "l_S", "n_S", "o_S", "r_S", "i_S"},
 	{"v_S", "w_S", "v_S", ""},
 	{"x_S.a_S", "y_S.a_S", "z_S.b_S", "z_S", "x_S", ""},
+	{"a_S", "g_S.h_S", "g_S", "a_S", ""},
+	{"svc_S", "e6_S", "t_S", "svc_S", ""},
 }
 
 var opKinds = []string{"lookup", "fields", "fields-all", "walk", "unify", "unify-accept", "fill", "fill-value", "validate", "validate-concrete", "default", "eval",
 	"syntax", "syntax-final", "syntax-all", "decode", "json", "yaml", "equals", "subsume", "expr", "refpath", "allows", "kind", "len", "attrs", "compile", "encode", "encode-type",
-	"list", "exists-concrete", "string-int", "buildexpr", "validator-eq", "validator-eq", "decode-ci", "decode-ci", "fresh-eval", "fresh-eval", "build-file", "build-instance", "expr-syntax", "err-format", "let-merge", "let-merge", "allows-many", "syntax-attrs"}
+	"list", "exists-concrete", "string-int", "buildexpr", "validator-eq", "validator-eq", "decode-ci", "decode-ci", "fresh-eval", "fresh-eval", "build-file", "build-instance", "expr-syntax", "err-format", "let-merge", "let-merge", "allows-many", "syntax-attrs", "unify-sub", "fill-conflict", "encode-holding"}
 
 var affinity = map[string]struct {
 	p     float64
 	frags []int
 }{
-	"err-format":   {0.8, []int{32}},
-	"expr-syntax":  {0.7, []int{31}},
-	"syntax":       {0.3, []int{31, 32}},
-	"syntax-all":   {0.3, []int{31, 32}},
-	"kind":         {0.3, []int{31}},
-	"equals":       {0.3, []int{31}},
-	"validate":     {0.2, []int{32}},
-	"allows":       {0.5, []int{33}},
-	"allows-many":  {0.7, []int{33}},
-	"default":      {0.4, []int{25, 26, 29}},
-	"attrs":        {0.6, []int{34}},
-	"syntax-attrs": {0.6, []int{34}},
+	"err-format":    {0.8, []int{32}},
+	"expr-syntax":   {0.7, []int{31}},
+	"syntax":        {0.3, []int{31, 32}},
+	"syntax-all":    {0.3, []int{31, 32}},
+	"kind":          {0.3, []int{31}},
+	"equals":        {0.3, []int{31}},
+	"validate":      {0.2, []int{32}},
+	"allows":        {0.5, []int{33}},
+	"allows-many":   {0.7, []int{33}},
+	"default":       {0.4, []int{25, 26, 29}},
+	"attrs":         {0.6, []int{34}},
+	"unify-sub":     {0.6, []int{35, 36}},
+	"fill-conflict": {0.7, []int{36}},
+	"syntax-attrs":  {0.6, []int{34}},
 }
 
 // rare branches where a badly placed preemption matters most
@@ -576,7 +585,7 @@ func doOp(e *env, op Op) (res string) {
 		}
 		return b.String() + fmt.Sprint(at.Allows(cue.AnyString), at.Allows(cue.AnyIndex), at.IsClosed())
 	case "kind":
-		return fmt.Sprint(at.Kind(), at.IncompleteKind(), at.IsConcrete(), at.Exists())
+		return fmt.Sprint(at.Kind(), at.IncompleteKind(), at.IsConcrete(), at.Exists(), " ", v.Path(), "/", at.Path())
 	case "len":
 		return show(at.Len())
 	case "attrs":
@@ -607,6 +616,26 @@ func doOp(e *env, op Op) (res string) {
 		return "not an expression"
 	case "encode":
 		return show(e.ctx.Encode(goT{A: op.Arg, D: &goT{A: 1}}))
+	case "encode-holding":
+		// Go values that hold shared cue.Values (the root value among them), under a name of the call's own
+		name := fmt.Sprintf("h%d_%s", op.Arg, e.sfx)
+		m := e.ctx.Encode(map[string]cue.Value{name: v})
+		st := e.ctx.Encode(struct {
+			A cue.Value `json:"a"`
+			B []cue.Value
+		}{at, []cue.Value{v, at}})
+		return fmt.Sprintf("%v %v | %s | %s", m.LookupPath(cue.ParsePath(name)).Exists(), st.LookupPath(cue.ParsePath("a")).Exists(), v.Path(), at.Path()) +
+			" | " + show(m.LookupPath(cue.ParsePath(name+"."+strings.ReplaceAll("f0_S", "_S", "_"+e.sfx))).Eval())
+	case "unify-sub":
+		// a value derived from a node inside the shared value (not from its root)
+		o := e.ctx.CompileString(fmt.Sprintf("{us%d_%s: %d}", op.Arg, e.sfx, op.Arg))
+		u := at.Unify(o)
+		j, err := u.MarshalJSON()
+		return fmt.Sprintf("%v %s %v", u.Validate(), j, err)
+	case "fill-conflict":
+		// every alternative of a disjunction fails, for a reason of the call's own
+		f := at.FillPath(cue.ParsePath("kind_"+e.sfx), fmt.Sprintf("bogus-%d", op.Arg))
+		return fmt.Sprint(f.Validate()) + " | " + show(f)
 	case "encode-type":
 		return show(e.ctx.EncodeType(goT{}))
 	case "build-file":
@@ -760,8 +789,26 @@ func raceKey(report string) (key string, inHarness bool) {
 				break
 			}
 		}
-		fn := strings.TrimPrefix(strings.TrimPrefix(site.fn, "cuelang.org/go/internal/core/"), "cuelang.org/go/")
-		sides = append(sides, fn+": "+srcLine(site.file, site.line))
+		short := func(fn string) string {
+			return strings.TrimPrefix(strings.TrimPrefix(fn, "cuelang.org/go/internal/core/"), "cuelang.org/go/")
+		}
+		// the route inside the evaluator core: the (at most four) innermost evaluator
+		// functions below that call site. One call site (cue.Unify, say) reaches shared
+		// nodes along several routes with different causes; the route tells them apart.
+		var route []string
+		for _, f := range frames {
+			if f == site || len(route) == 4 {
+				break
+			}
+			if strings.HasPrefix(f.fn, "cuelang.org/go/internal/core/adt.") {
+				route = append(route, short(f.fn))
+			}
+		}
+		side := short(site.fn) + ": " + srcLine(site.file, site.line)
+		if len(route) > 0 {
+			side += " [" + strings.Join(route, "<") + "]"
+		}
+		sides = append(sides, side)
 		if len(sides) == 2 {
 			break
 		}
